@@ -207,7 +207,12 @@ def step (st : St) (line : String) : IO St := do
     match replaySolve c k exm maxit absTol relTol (impl.drop init.length) 0 fgs0 [] 0.0 with
     | .error e =>
       let stats ← check st.stats false fun _ => s!"solve loop L={L} extrap={exm} fmg={fmg} maxit={maxit}: {e}"
-      return { st with stats := stats }
+      -- the trace no longer replays: the first sentence of C01 is still evaluated on what the implementation reports
+      st := { st with stats := stats }
+      if exm != 2 ∧ nu1 ≥ 1 ∧ nu2 ≥ 1 ∧ maxit ≥ 150 ∧ (absTol.isSome ∨ relTol.isSome) ∧ it ≥ maxit then
+        IO.println s!"ORACLE C01 no convergence within {maxit} iterations (as reported by the implementation; its trace does not replay) opts={afterKey line "opts"}"
+        st := { st with oracleFails := st.oracleFails + 1 }
+      return st
     | .ok (iters, _, norms, early, sw) =>
       let mut stats ← check st.stats (iters == it) fun _ => s!"solve loop: implementation reports {it} iterations, model replay {iters}"
       -- reported mean reduction factor
